@@ -598,6 +598,54 @@ for nm, got, want in (("sdh", sdh_invalid, "ValueError"), ("crack", crack_invali
     if got is not None and got[0] != want:
         chk.violation(f"{nm}:invalid-key", f"{nm}: to_compute with an unknown key gives {got[0]} (model: {want})", dict(kind=nm, outcome=got))
 
+# ---- angle dtype: integer-typed angles (Python ints, int arrays) are the same angles ---------------------
+# ---- history: one scatterer OBJECT asked first for a subset of keys, then for everything ---------------
+def _mk(kind):
+    vl, vt, rho = 6300.0, 3100.0, 2700.0
+    if kind == "point":
+        return scat.PointSourceScat(vl, vt)
+    if kind == "sdh":
+        return scat.SdhScat(0.5e-3, vl, vt)
+    return scat.CrackCentreScat(1.0e-3, vl, vt, rho)
+
+
+def _same(a, b, scale, tol=1e-12):
+    return a.shape == b.shape and bool(np.all(np.abs(a - b) <= tol * max(scale, 1e-300)))
+
+
+for kind in ("point", "sdh", "crack"):
+    f_ = 2.0e6
+    obj = _mk(kind)
+    for inc_i, out_i in ((np.array([0, 1, -2, 3]), np.array([1, 0, 3, -3])), (0, np.array([0, 1, 2])), (np.array([2, -1]), 1)):
+        ref = obj(np.asarray(inc_i, float), np.asarray(out_i, float), f_)
+        got = obj(inc_i, out_i, f_)
+        evaluations += 4
+        nontrivial.add(("int-angles", kind, str(inc_i)))
+        sc_ = max(float(np.max(np.abs(v))) for v in ref.values())
+        for k in ref:
+            if not _same(np.asarray(got[k], complex), np.asarray(ref[k], complex), sc_):
+                chk.violation(f"{kind}:angle-dtype", f"{kind}: integer-typed angles give S_{k} different from the same angles as floats",
+                              dict(kind=kind, key=k, inc_theta=np.asarray(inc_i).tolist(), out_theta=np.asarray(out_i).tolist(),
+                                   got=np.asarray(got[k]), expected=np.asarray(ref[k])), failing_input_found=True)
+    nang = 6
+    for first in ({"LL"}, {"TT"}, {"LT"}, {"TL", "TT"}):
+        o1, o2 = _mk(kind), _mk(kind)
+        o1.as_single_freq_matrices(f_, nang, to_compute=first)          # history: subset first ...
+        o1(np.array([0.3, 1.0]), np.array([-0.4, 2.5]), f_, to_compute=first)
+        h_full = o1.as_single_freq_matrices(f_, nang)                    # ... then everything, same object
+        h_call = o1(np.array([0.3, 1.0]), np.array([-0.4, 2.5]), f_)
+        f_full = o2.as_single_freq_matrices(f_, nang)                    # fresh object
+        f_call = o2(np.array([0.3, 1.0]), np.array([-0.4, 2.5]), f_)
+        evaluations += 8
+        nontrivial.add(("history", kind, tuple(sorted(first))))
+        sc_ = max(float(np.max(np.abs(v))) for v in f_full.values())
+        for k in ("LL", "LT", "TL", "TT"):
+            if not (_same(np.asarray(h_full[k]), np.asarray(f_full[k]), sc_) and _same(np.asarray(h_call[k]), np.asarray(f_call[k]), sc_)):
+                chk.violation(f"{kind}:subset-history",
+                              f"{kind}: S_{k} asked after an earlier request for {sorted(first)} on the same object differs from a fresh object",
+                              dict(kind=kind, key=k, first_request=sorted(first), numangles=nang, frequency=f_,
+                                   after_history=np.asarray(h_full[k]), fresh=np.asarray(f_full[k])), failing_input_found=True)
+
 chk.cov["measured_max_residuals"] = {k: worst[k] for k in sorted(worst)}
 chk.finish(
     evaluations=evaluations,
